@@ -9,8 +9,8 @@ use crate::provenance::proof_tree::{
     Conclusion, NegationInfo, NodeId, NodeKind, ProofNode, ProofTreeBuilder, VectorSearchInfo,
 };
 use crate::provenance::unification::{
-    evaluate_comparison, find_matching_tuples, format_bound_terms, substitute_atom, Bindings,
-    BoundTerm,
+    evaluate_comparison, find_matching_tuples, format_bound_terms, substitute_atom, values_equal,
+    Bindings, BoundTerm,
 };
 use crate::value::Value;
 use std::collections::HashSet;
@@ -307,7 +307,9 @@ fn enumerate_derived_candidates(
                         for (i, bt) in bound_terms.iter().enumerate() {
                             if let BoundTerm::Concrete(expected) = bt {
                                 if let Some(actual) = tuple.get(i) {
-                                    if actual != expected {
+                                    // head constants are Int32 while stored values are
+                                    // Int64: compare as the rest of the chainer does
+                                    if !values_equal(actual, expected) {
                                         matches_pattern = false;
                                         break;
                                     }
